@@ -1214,28 +1214,31 @@ class Hyperplane(Subspace):
         matrix = matrix * np.expand_dims(np.where(trace < 0, -1, 1),
                                          axis=(-1, -2))
 
-        # TODO: make this compatible with sage
-
-        #numpy's eig expects a matrix operating on the left
-        evals, evecs = np.linalg.eig(matrix)
-
         dimension = matrix.shape[-1] - 1
+        form = minkowski(dimension + 1)
+        identity = np.identity(dimension + 1)
 
-        #we expect a reflection to have eigenvalues [-1, 1, ...]
-        expected_evals = np.ones(dimension + 1)
-        expected_evals[0] = -1.
-        eval_differences = np.sort(evals, axis=-1) - expected_evals
-        if (np.abs(eval_differences) > ERROR_THRESHOLD).any():
-            raise GeometryError("Not a reflection matrix")
-
-        #sometimes eigenvalues will be complex due to roundoff error
-        #so we cast to reals to avoid warnings.
-        reflected = np.argmin(np.real(evals), axis=-1)
-
-        # SAGETEST
+        #a reflection R acts by v -> v - 2<v,d>/<d,d> d, so every column
+        #of R - I (for the matrix operating on the left) is a multiple
+        #of the normal d. we read d off the largest column and compare
+        #R with the reflection in d. (the eigenvalues of R are only
+        #found to about eps |R|^2, which is no help for walls far from
+        #the origin.)
+        offset = matrix - identity
+        largest = np.argmax(utils.normsq(offset.swapaxes(-1, -2)), axis=-1)
         spacelike = np.take_along_axis(
-            np.real(evecs), np.expand_dims(reflected, axis=(-1,-2)), axis=-1
+            offset, np.expand_dims(largest, axis=(-1,-2)), axis=-1
         )
+        normal = spacelike[..., 0]
+
+        with np.errstate(divide="ignore", invalid="ignore"):
+            expected = identity - 2 * (
+                spacelike * np.expand_dims(normal @ form, axis=-2)
+            ) / np.expand_dims(utils.normsq(normal, form), axis=(-1, -2))
+
+        size = np.maximum(1, np.abs(matrix).max(axis=(-1, -2), keepdims=True))
+        if not (np.abs(matrix - expected) <= ERROR_THRESHOLD * size).all():
+            raise GeometryError("Not a reflection matrix")
 
         #one (1, n) block of normals per reflection; drop the
         #singleton axis again afterwards
